@@ -5,6 +5,9 @@ cd "$(dirname "$0")" || exit 2
 export GOFLAGS=-mod=mod GOPROXY=off GOSUMDB=off GOTOOLCHAIN=local GOWORK=off CGO_ENABLED=0
 unset GOWORK_FILE
 GOWORK=off; export GOWORK
-[ -x bin/vfcheck ] || go build -o bin/vfcheck ./cmd/vfcheck || exit 2
+# (re)build the checker when it is missing or older than its sources
+if [ ! -x bin/vfcheck ] || [ -n "$(find cmd internal go.mod -newer bin/vfcheck \( -name '*.go' -o -name go.mod \) 2>/dev/null | head -1)" ]; then
+	go build -o bin/vfcheck.tmp.$$ ./cmd/vfcheck && mv -f bin/vfcheck.tmp.$$ bin/vfcheck || { rm -f bin/vfcheck.tmp.$$; [ -x bin/vfcheck ] || exit 2; }
+fi
 tier="${2:-${VERIF_TIER:-quick}}"
 exec bin/vfcheck -prop "$1" -tier "$tier" -repo "${VERIF_REPO:-/repo}" -verif "$(pwd)"
